@@ -211,6 +211,21 @@ PROPS = {
         level_text='Hundreds (quick) to ~18 000 (thorough) invocations over generated layouts; every (rule, file) pair is decided by the independent predicate; held on the projects executed.',
         level_note='Trusted: the 15-line glob matcher restricted to forms whose meaning does not depend on `*` crossing `/`, the extension table copied from the language reference. Paths are taken relative to the project root without `./`.',
     ),
+    'C17': dict(
+        engines=[('py', 'c17')],
+        cli=True,
+        level='fault_enumeration',
+        technique='runtime monitoring: offline checker over the producer/consumer event log (hook H3) with injected delays at produce/send/recv + differential oracle (tree run vs union of single-file runs) + fault injection per file',
+        rule=('generated trees of 40-90 (quick) / 50-400 (thorough) small js/py/rs/html/txt files in nested directories, searched with `ast-grep run -p .. -l js --json=stream -j N .` and '
+              '`ast-grep scan -c sgconfig.yml --json=stream -j N .` (4 rules, 4 languages, html with injected script/style) for N in {1,2,4,8,16} (quick) / 1..16 (thorough), each repeated with '
+              'differently seeded failpoint delays (produce up to 2 ms, send up to 2 ms, recv up to 3 ms) and once without. Oracle: the sorted multiset of records equals the union of the records of one '
+              'single-file run per file; the H3 log must show exactly one produce_begin/produce_end per eligible path, items == send == recv, a single consumer thread. Fault enumeration: 12 files per tree '
+              'are made empty / non-UTF-8 / larger than both size limits / a directory of the same name / a dangling symlink / unreadable (process runs as uid nobody): no record for them, all other records unchanged, output well-formed. '
+              'evaluations = CLI runs over a tree. distinct_nontrivial = distinct interleaving signatures (hash of the (event, path) sequence of the log) actually observed; distinct consume orders are reported too.'),
+        floor={'quick': 60, 'thorough': 2000},
+        level_text='Every kind of per-file fault is injected in every tree and every run is checked both at the output and in the event log; schedules are sampled (the evidence lists how many distinct interleavings occurred), not enumerated.',
+        level_note='Trusted: the hook events (single write(2) per line, emitted around produce/send/recv), the single-file runs as definition of "each file alone". A ThreadSanitizer build of the CLI is part of the thorough plan (DESIGN.md §4).',
+    ),
 }
 
 NOT_APPLICABLE = {}
